@@ -91,7 +91,7 @@ func (e *Engine) isMatchNFA(haystack []byte) bool {
 	// Use prefilter for skip-ahead if available
 	if e.prefilter != nil {
 		at := 0
-		for at < len(haystack) {
+		if at < len(haystack) {
 			// Find next candidate position via prefilter
 			pos := e.prefilter.Find(haystack, at)
 			if pos == -1 {
@@ -111,9 +111,11 @@ func (e *Engine) isMatchNFA(haystack []byte) bool {
 				return true
 			}
 
-			// Move past this position
+			// Both engines search unanchored from the candidate to the end of the
+			// haystack, so no match starts at or after pos. Verifying the remaining
+			// candidates too would repeat that O(n) scan per candidate (O(n^2)).
 			atomic.AddUint64(&e.stats.PrefilterMisses, 1)
-			at = pos + 1
+			return false
 		}
 		return false
 	}
